@@ -8,6 +8,7 @@ CONSTANTS
   MaxK = 2
   MaxB = 1
   ErrKinds = {"full"}
+  FixKeys = TRUE
 INVARIANT DumpInv
 INVARIANT InvRoundTripOrKnown
 INVARIANT InvNoSilentOrKnown
